@@ -157,6 +157,17 @@ package updates
 //@ func mutate
 //@ requires (mutator == "+=" || mutator == "-=" || mutator == "*=" || mutator == "/=" || mutator == "%=") ==> (IntOperand(current, value) && RealOperand(current, value))
 //@ requires (mutator == "/=" || mutator == "%=") ==> NonZeroDivisor(value)
+// dispatch (C03): each arithmetic mutator computes column OP value; booleans and strings are not mutated
+//@ ensures mutator == "+=" && istype(current, "int") ==> (istype(result0, "int") && unbox(result0, "int") == unbox(current, "int") + unbox(value, "int") && result1 == result0)
+//@ ensures mutator == "+=" && istype(current, "float64") ==> (istype(result0, "float64") && unbox(result0, "float64") == unbox(current, "float64") + unbox(value, "float64") && result1 == result0)
+//@ ensures mutator == "-=" && istype(current, "int") ==> (istype(result0, "int") && unbox(result0, "int") == unbox(current, "int") - unbox(value, "int") && result1 == result0)
+//@ ensures mutator == "-=" && istype(current, "float64") ==> (istype(result0, "float64") && unbox(result0, "float64") == unbox(current, "float64") - unbox(value, "float64") && result1 == result0)
+//@ ensures mutator == "*=" && istype(current, "int") ==> (istype(result0, "int") && unbox(result0, "int") == unbox(current, "int") * unbox(value, "int") && result1 == result0)
+//@ ensures mutator == "*=" && istype(current, "float64") ==> (istype(result0, "float64") && unbox(result0, "float64") == unbox(current, "float64") * unbox(value, "float64") && result1 == result0)
+//@ ensures mutator == "/=" && istype(current, "int") ==> (istype(result0, "int") && unbox(result0, "int") == unbox(current, "int") / unbox(value, "int") && result1 == result0)
+//@ ensures mutator == "/=" && istype(current, "float64") ==> (istype(result0, "float64") && unbox(result0, "float64") == unbox(current, "float64") / unbox(value, "float64") && result1 == result0)
+//@ ensures mutator == "%=" && istype(current, "int") ==> (istype(result0, "int") && unbox(result0, "int") == unbox(current, "int") % unbox(value, "int") && result1 == result0)
+//@ ensures istype(current, "bool") || istype(current, "string") ==> (result0 == current && result1 == value)
 
 //@ func (*ModelUpdates).addMutateOperation
 //@ at call updates.mutate requires (arg1 == "/=" || arg1 == "%=") ==> NonZeroDivisor(arg2)
